@@ -6,6 +6,7 @@
 //! The harness only measures and converts units; every law that is checked lives in TLA+.
 
 mod areas;
+mod basisops;
 mod freq;
 mod geom;
 mod hist;
@@ -160,6 +161,12 @@ fn main() {
         ),
         "site-edges" => geom::site_edges(m.get("out").expect("--out")),
         "initial-states" => hist::initial_states(m.get("out").expect("--out")),
+        "basis-ops" => basisops::basis_ops(
+            m.get("out").expect("--out"),
+            m.get("tokens").expect("--tokens"),
+            m.get("tier").map(|t| t == "thorough").unwrap_or(false),
+            m.get("seed").and_then(|s| s.parse().ok()).unwrap_or(1),
+        ),
         "tables" => geom::tables(m.get("out").expect("--out")),
         "crystal" => geom::crystal(m.get("in").expect("--in"), m.get("out").expect("--out")),
         _ => {
